@@ -1065,6 +1065,13 @@ var SetProductFunc = function.New(&function.Spec{
 			return cty.SetValEmpty(ety).WithMarks(retMarks), nil
 		}
 
+		if ety.HasDynamicTypes() {
+			// Some argument has members whose common type isn't decided yet
+			// (a tuple with a dynamically-typed unknown member), so the
+			// element type of the result isn't decided either.
+			return cty.UnknownVal(retType).WithMarks(retMarks), nil
+		}
+
 		subEtys := ety.TupleElementTypes()
 		product := make([][]cty.Value, total)
 
